@@ -55,5 +55,10 @@ func nullifyLastAppliedAnnotation(object *unstructured.Unstructured) {
 		return
 	}
 	delete(annotations, apply.LastAppliedAnnotation)
+	if len(annotations) == 0 {
+		// Don't leave an empty annotations map behind: it would differ from a
+		// desired state that has no annotations at all.
+		annotations = nil
+	}
 	object.SetAnnotations(annotations)
 }
